@@ -55,7 +55,7 @@ def mandatory_bins(tier):
     b = ["blocks_" + "+".join(l) for l in GB.all_block_lists()]
     b += ["session_key_drawn", "all_blocks_wrap_the_mac_key", "pass_through_rewrite", "rewrite_known_blocks_same_key", "creations_without_key", "counting_rng",
           "ecc_wrap", "ecc_rewrite_same_object", "ephemeral_points_distinct", "splice_accepted_when_keys_equal", "splice_body_under_first_key", "splice_body_under_second_key", "splice_triple", "splice_partial_decryptor_set", "splice_unopened_block_between", "read_with_encrypt_only_ecc_encryptor", "content_of_a_read_file_rewritten_under_a_fresh_key", "encrypted_component_under_the_wrapped_key", "foreign_blocks_of_unknown_kind"]
-    b += ["splice_%s_%s" % (a, c) for a in GB.KINDS for c in GB.KINDS] + ["splice_two_ecc_blocks_for_two_selectors", "splice_block_wraps_a_prefix_of_the_key", "files_written_by_concurrent_threads", "registered_aes_is_a_chaining_engine", "encryptor_objects_reused_for_a_further_file"]
+    b += ["splice_%s_%s" % (a, c) for a in GB.KINDS for c in GB.KINDS] + ["splice_two_ecc_blocks_for_two_selectors", "splice_block_wraps_a_prefix_of_the_key", "files_written_by_concurrent_threads", "registered_aes_is_a_chaining_engine", "encryptor_objects_reused_for_a_further_file", "one_encryptor_list_shared_by_concurrent_writers"]
     return b
 
 
@@ -489,16 +489,24 @@ def run_threads(ns, ctx, spec):
     codes = yieldrun.code_objects_of(ns.plugin.PrivateEccKeyProxy, ns.plugin.PublicEccKeyProxy, B.EccEncryptor, B.EccDecryptor, B.InitEccAuthBlock, B.Bec2File, B.UpdateAuthBlock, B.AesEncryptorMixin)
     codes += [c_ for c_ in yieldrun.code_objects_of_module(ns.bec2file, ns.crypto, ns.plugin) if c_ not in codes]  # module-level helpers and every class of these modules
     total = 0
+    eph_points = set()
     for rnd in range(spec["rounds"]):
         nthreads = (2, 3)[rnd % 2]
         all_specs = [GB.gen_blocks(rng, rng.choice((("ecc", "update"), ("update", "ecc"), ("ecc", "cust"), ("ecc",)))) for _ in range(nthreads)]
         keys = [rng.randbytes(16) for _ in range(nthreads)]
         cases = [G.gen_case(rng, ncomp=1) for _ in range(nthreads)]
 
+        shared_encs = None
+        if rnd % 2 == 1:
+            # ONE list of encryptor objects (one EccEncryptor among them) handed to every writing thread
+            all_specs = [all_specs[0]] * nthreads
+            shared_encs = GB.write_encryptors(ns, all_specs[0])
+            ctx.bin("one_encryptor_list_shared_by_concurrent_writers")
+
         def body(i):
             def run():
                 f = B.Bec2File(G.build_real(ns, cases[i]), GB.real_auth_blocks(ns, all_specs[i]), keys[i])
-                return f.to_binary(GB.write_encryptors(ns, all_specs[i]))
+                return f.to_binary(shared_encs if shared_encs is not None else GB.write_encryptors(ns, all_specs[i]))
             return run
 
         res, y = yieldrun.run_concurrently([body(i) for i in range(nthreads)], codes, sleep=0.0003, max_yields=6000)
@@ -525,6 +533,12 @@ def run_threads(ns, ctx, spec):
             ctx.mon("all_blocks_opened_by_model")
             if any(bytes(k_) != keys[i] for k_ in got):
                 ctx.violation("blocks_of_one_file_wrap_different_keys", {"how": "written_by_concurrent_threads", "keys": got}, rp)
+            for s_, (t, v) in zip(all_specs[i], blocks):
+                if s_["kind"] == "ecc":
+                    pt = ecies.parse_block(bytes(v))[1]
+                    if pt in eph_points:
+                        ctx.violation("ephemeral_key_reused_across_writes:concurrent_threads", {"shared_encryptor_list": shared_encs is not None}, rp)
+                    eph_points.add(pt)
     ctx.mon("line_yields_injected", total)
     ctx.sample({"kind": "threads", "rounds": spec["rounds"], "line_yields": total})
 
